@@ -151,6 +151,32 @@ def gen(tier, rng):
                 n = rng.randrange(0, 17)
                 items.append(("u16.%d" % n, [rng.getrandbits(1) for _ in range(n)]))
         cases.append(mk_case(rng, items, rng.randrange(8), rng.choice(kinds)))
+    # 7. whole bytes taken through the borrowed inner reader (BitReader::reader()) between Exp-Golomb reads: the reads that
+    # follow start where the inner reader stands (lookahead kept by the bit reader must not survive it)
+    for _ in range(400 if tier == "quick" else 8000):
+        items, nbits = [], 0
+        for _ in range(rng.randrange(3, 9)):
+            c = rng.randrange(5)
+            if c <= 1:
+                k = rng.randrange(0, 8)
+                bits = codeword_bits(k, rng.getrandbits(k) if k else 0)
+                items.append((rng.choice(["ue", "se"]), bits))
+            elif c == 2:
+                pad = (8 - nbits % 8) % 8
+                bits = [rng.getrandbits(1) for _ in range(pad)]
+                items.append(("u8.%d" % pad, bits))
+            else:
+                # aligned here (or not: then R answers "unaligned" on both sides): take 1..3 bytes
+                n = rng.randrange(1, 4)
+                if nbits % 8 == 0:
+                    bits = [rng.getrandbits(1) for _ in range(8 * n)]
+                    items.append(("R%d" % n, bits))
+                else:
+                    bits = []
+                    items.append(("R%d" % n, bits))
+            nbits += len(bits)
+        items.append(("ue", codeword_bits(3, 5)))
+        cases.append(mk_case(rng, [("ue", codeword_bits(2, 1))] + items + [("ue", codeword_bits(1, 0))] * 2, 0, rng.choice(kinds)))
     return cases
 
 
